@@ -45,7 +45,9 @@ type c27Op struct {
 }
 
 type c27Case struct {
-	Ops []c27Op `json:"ops"`
+	// Eager > 0: the scripted gateway answers from the link's write hook (the client's writer yields Eager-1 times there)
+	Eager int     `json:"eager,omitempty"`
+	Ops   []c27Op `json:"ops"`
 }
 
 var c27Predef = map[string]map[uint16]string{"*": {1: "a", 2: "a/b", 3: "b/", 4: "/", 5: "a/b/a"}}
@@ -81,6 +83,7 @@ func genTopic(t *rapid.T) string {
 
 func genC27(t *rapid.T) c27Case {
 	var c c27Case
+	c.Eager = rapid.SampledFrom([]int{0, 0, 0, 1, 2, 4, 11}).Draw(t, "eager")
 	n := rapid.IntRange(2, 14).Draw(t, "n")
 	var subs []string
 	for i := 0; i < n; i++ {
@@ -153,6 +156,10 @@ func runC27(c c27Case) (r vf.Result) {
 	if err := connect(s, g); err != nil {
 		r.Fail("harness-connect", "%v", err)
 		return
+	}
+	if c.Eager > 0 {
+		s.SetEager(c.Eager - 1)
+		r.Label("eager-gateway")
 	}
 	live := map[string]bool{}   // filters currently subscribed (by the client's own bookkeeping key)
 	knows := map[string]bool{}  // names the client has an ID for
